@@ -7,7 +7,7 @@ CONSTANTS
   AggSet <- Aggs5
   MaxEsts = 3
   MaxAlphas = 3
-  MaxAggs = 5
+  MaxAggs = 3
   Export = FALSE
   LoopOrder = "estimand_outer"
   CacheSlots = "per_alpha"
